@@ -48,11 +48,16 @@ def rid_of(name):
     return int(m.group(1)) if m else None
 
 
+_SERIAL = itertools.count(1)
+_FLOOR = {}           # request id -> serial number at the start of the CURRENT request for that id
+
+
 class Ctx:
-    """context object returned by prepare_context: remembers who made it and for which name"""
+    """context object returned by prepare_context: remembers who made it, for which name and when"""
     def __init__(self, tag, name):
         self.tag = tag
         self.name = name
+        self.serial = next(_SERIAL)
 
 
 RESULT_KINDS = ["ok", "bare404", "bare403", "bare500", "empty404", "404hdr", "404body"]
@@ -156,6 +161,9 @@ class RecHttp(HS.HttpRequestHandler):
 
 def _ctx(c):
     if isinstance(c, Ctx):
+        rid = rid_of(c.name)
+        if c.serial <= _FLOOR.get(rid, 0):           # made by prepare_context for an EARLIER request
+            return ("<context object of an earlier request> " + c.tag, c.name)
         return (c.tag, c.name)
     return ("<not a context: %r>" % (c,), "")
 
@@ -337,7 +345,7 @@ class C10(Check):
                 yield bind, fam
 
     def mk(self, proto, bind, fam, pktinfo, handlers, stem=b"", tail=b"", mail=False, method="GET", headers=None,
-           restart=None, debug=False):
+           restart=None, debug=False, repeat=None):
         rid = next(self._seq)
         token = b"id%dx" % rid
         if proto in (1, 3):
@@ -350,7 +358,7 @@ class C10(Check):
             name = b"/t/http.txt"
         hd = [("Host", "verif"), ("X-Verif-Id", str(rid))] + list(headers or [])
         return {"proto": proto, "bind": bind, "fam": fam, "pktinfo": pktinfo, "rid": rid, "name": name,
-                "mail": mail, "method": method, "headers": hd if proto in (1, 3) else [], "restart": restart, "debug": debug,
+                "mail": mail, "method": method, "headers": hd if proto in (1, 3) else [], "restart": restart, "debug": debug, "repeat": repeat,
                 "handlers": [("h%d-%d" % (i, rid),) + ((bool(a[0]), a[1]) if isinstance(a, tuple) else (bool(a), "ok"))
                              for i, a in enumerate(handlers)]}
 
@@ -376,6 +384,15 @@ class C10(Check):
         for v in some:
             yield self.mk(0, "::", 4, False, v, stem=b"dbg/", debug=True)
             yield self.mk(1, V6, 6, True, v, tail=b"/dbg", method="POST", debug=True)
+        # the same file name / URI requested again on the same server: full dispatch and a fresh context every time
+        for v in some + [(True, True), (False, True, False)]:
+            for rep in (2, 3):
+                yield self.mk(0, "::", 6, True, v, stem=b"again/", repeat=rep)
+                yield self.mk(0, "::", 4, False, v, stem=b"again/", repeat=rep)
+                yield self.mk(1, "::", 6, True, v, tail=b"/again?x=1", repeat=rep)
+        yield self.mk(0, V6, 6, True, (True,), repeat=4, debug=True)
+        yield self.mk(2, "::", 6, True, (True,), repeat=2)
+        yield self.mk(3, "::", 6, True, (True,), repeat=2)
         # stop() and start() on ONE server object (bind_port=0: new port): the handler must see the new address
         for bind, fam in (("::", 6), ("::", 4), (V6, 6)):
             for pk in (True, False):
@@ -452,10 +469,17 @@ class C10(Check):
             for lg in loggers:
                 lg.setLevel(logging.DEBUG)
         try:
-            if c["proto"] in (0, 2):
-                reply, cport, sockname = tftp_request(c)
-            else:
-                reply, cport, sockname = http_request(c)
+            for _rep in range(c.get("repeat") or 1):
+                # the same name again on the same long-lived server: every request gets its own full dispatch
+                if _rep:
+                    time.sleep(0.03)
+                LOGS[c["rid"]] = []
+                ACCEPTED.discard(c["rid"])
+                _FLOOR[c["rid"]] = next(_SERIAL)
+                if c["proto"] in (0, 2):
+                    reply, cport, sockname = tftp_request(c)
+                else:
+                    reply, cport, sockname = http_request(c)
             if c.get("debug"):
                 time.sleep(0.01)
         finally:
@@ -599,6 +623,7 @@ class C10(Check):
                 "client_family": "IPv%d" % c["fam"], "pktinfo": c["pktinfo"], "name": c["name"].decode("latin-1"),
                 "mail_mode": c["mail"], "method": c["method"], "headers": c["headers"],
                 "server_loggers_at_DEBUG": bool(c.get("debug")), "restart": c.get("restart"),
+                "same_request_sent_n_times(last one observed)": c.get("repeat"),
                 "handlers(tag,accepts,result)": c["handlers"]}
 
     def renamed(self, c, **kw):
@@ -626,7 +651,49 @@ class C10(Check):
             yield self.renamed(c, method="GET")
 
     # -- 16 concurrent requests with distinct names (exercised, not proved)
+    def same_name_concurrently(self, report):
+        """several clients ask for the SAME name at the same time: as many full dispatches as requests, as many
+        distinct fresh contexts as requests"""
+        for proto in (0, 1):
+            n = 6
+            c = self.mk(proto, "::", 6, True, (False, True), stem=b"same/" if proto == 0 else b"", tail=b"/same")
+            SCRIPTS[c["rid"]] = c["handlers"]
+            LOGS[c["rid"]] = []
+            _FLOOR[c["rid"]] = next(_SERIAL)
+            replies = [None] * n
+            gate = threading.Barrier(n)
+
+            def work(i):
+                gate.wait()
+                try:
+                    replies[i] = (tftp_request(c) if proto == 0 else http_request(c))[0]
+                except Exception as ex:      # noqa
+                    replies[i] = ("exception", repr(ex))
+            ths = [threading.Thread(target=work, args=(i,)) for i in range(n)]
+            for t in ths:
+                t.start()
+            for t in ths:
+                t.join()
+            time.sleep(0.1)
+            log = LOGS.pop(c["rid"], [])
+            SCRIPTS.pop(c["rid"], None)
+            ACCEPTED.discard(c["rid"])
+            probes = [e for e in log if e[0] in ("prepare", "can")]
+            handles = [e for e in log if e[0] == "handle"]
+            stale = [e for e in handles if e[3][0].startswith("<")]
+            ok = (len(probes) == 4 * n and len(handles) == n and not stale and all(e[1] == 1 for e in handles)
+                  and all(r[0] in ("data", "http") for r in replies))
+            report["extra"]["same_name_concurrent_requests"] = report["extra"].get("same_name_concurrent_requests", 0) + n
+            if not ok:
+                report["impl_failures"] += 1
+                report.setdefault("extra_failing", []).append(
+                    (dict(self.show(c), _extra=True, concurrent_same_name=n,
+                          counted={"prepare+can calls": len(probes), "expected": 4 * n, "handle calls": len(handles),
+                                   "handle calls with an earlier request's context": len(stale)}),
+                     ["first_match" if len(probes) != 4 * n or len(handles) != n else "own_context"], None, None))
+
     def extra_checks(self, tier, rng, report):
+        self.same_name_concurrently(report)
         import random
         crng = random.Random(rng.random())
         rounds = 2 if tier == "quick" else 20
